@@ -51,12 +51,20 @@ C_UA = clause(U, 'post:ua_follows', ['C11'], 'B')
 C_SRC_WF = clause(U, 'post:sources_wf', ['C08'], 'B')
 C_SRC_EXACT = clause(U, 'post:sources_exact', ['C08'], 'B')
 C_DEPTHS = clause(U, 'post:depths_min', ['C08'], 'B')
-C_FRAME = clause(U, 'frame:inputs_unchanged', ['C16'], 'B')
-C_FRESH = clause(U, 'frame:fresh_sources', ['C16'], 'B')
+C_FRAME = clause(U, 'frame:inputs_unchanged', ['C16', 'C08'], 'B')
+C_FRESH = clause(U, 'frame:fresh_sources', ['C16', 'C08'], 'B')
 CM_BC = clause(UM, 'post:bucket_consistent', ['C01', 'C09'], 'B', internal=True)
 CM_SOUND_PURE = clause(UM, 'post:sound_pure', ['C01'], 'B', internal=True)
 CM_SOUND_MIXED = clause(UM, 'post:sound_mixed', ['C01'], 'B', internal=True)
 CM_ONLY_VE = clause(UM, 'raises:only_ValueError', ['C15'], 'B', internal=True)
+
+
+L_UNARY = clause(U, 'law:unary_identity', ['C09'], 'B', 'merge(s) equals s (parameters, return annotation, provenance)')
+L_IDEM = clause(U, 'law:idempotent', ['C09'], 'B', 'merge(s, s) equals s (parameters, return annotation)')
+L_NEUTRAL = clause(U, 'law:bare_stars_neutral', ['C09'], 'B', 'a bare (*args, **kwargs) is neutral on either side up to the names of the star parameters')
+L_ROUND = clause('_signatures.apply_params', 'law:sort_apply_round_trip', ['C09', 'C16'], 'B', 'apply_params(s, *sort_params(s)) equals s; with sources=True the provenance map is a fresh equal copy')
+L_FOLD = clause(U, 'law:fold', ['C09', 'C01'], 'B', 'roles kept: merge(a, b, c) equals merge(merge(a, b), c) in parameters and provenance')
+LAW_MODES = ('unary', 'idem', 'neutral_l', 'neutral_r', 'roundtrip', 'roundtrip_sources', 'foldlaw')
 
 
 def exc_is(interp, exc, cls_name):
@@ -289,7 +297,108 @@ def merge_vcs(env, want):
     return out
 
 
-def make_runner(shapes_, want=None, alias_funcs=True, wf_inputs=True):
+def _same_params(a_list, b_list, star_names=True):
+    """z3 condition: same parameters position by position (None when the spines differ)"""
+    if len(a_list) != len(b_list):
+        return None
+    cs = []
+    for p, q in zip(a_list, b_list):
+        if p.kind != q.kind:
+            return None
+        if star_names or p.kind not in (VP, VK):
+            cs.append(Z3Ops.eq(name_term(p), name_term(q)))
+        for k in ('_default', '_annotation'):
+            x, y = p._d[k], q._d[k]
+            cs.append(x.has == y.has)
+            cs.append(z3.Implies(x.has, x.val == y.val))
+    return z3.And(*cs) if cs else z3.BoolVal(True)
+
+
+def _same_return(a, b):
+    x, y = a._d['_return_annotation'], b._d['_return_annotation']
+    return z3.And(x.has == y.has, z3.Implies(x.has, x.val == y.val))
+
+
+def _same_sources(a, b, as_sets=False):
+    """provenance maps equal: same keys, same lists (as sets when asked), same depths; None when spines differ"""
+    if not (isinstance(a, SymDict) and isinstance(b, SymDict)):
+        return None
+    ea, da = src_entries(a)
+    eb, db = src_entries(b)
+    if len(ea) != len(eb):
+        return None
+    cs = []
+    for k, v in ea:
+        alts = []
+        for k2, v2 in eb:
+            ke = key_eq(k, k2.t if isinstance(k2, SymName) else k2)
+            if as_sets:
+                alts.append(z3.And(ke, *[z3.Or(*[x.t == y.t for y in v2]) for x in v], *[z3.Or(*[x.t == y.t for x in v]) for y in v2]) if v and v2 else z3.And(ke, z3.BoolVal(len(v) == len(v2))))
+            elif len(v) == len(v2):
+                alts.append(z3.And(ke, *[x.t == y.t for x, y in zip(v, v2)]))
+        if not alts:
+            return None
+        cs.append(z3.Or(*alts))
+    if (da is None) != (db is None):
+        return None
+    if da is not None:
+        for f, d in da.items_:
+            cs.append(z3.Or(*[z3.And(f.t == f2.t, sym.zint(d) == sym.zint(d2)) for f2, d2 in db.items_]) if db.items_ else z3.BoolVal(False))
+        for f2, d2 in db.items_:
+            cs.append(z3.Or(*[f.t == f2.t for f, _ in da.items_]) if da.items_ else z3.BoolVal(False))
+    return z3.And(*cs) if cs else z3.BoolVal(True)
+
+
+def law_vcs(env, want):
+    """relational clauses of C09: several runs on one path condition"""
+    r = env['r']
+    mode = env['mode']
+    out = []
+
+    def on(c):
+        return want is None or any(p in want for p in c.props)
+
+    def eqsig(c, tag, a, b, params=True, ret=True, sources=None, star_names=True):
+        """both outcomes are ('return', sig) | ('raise', exc)"""
+        if a[0] != b[0]:
+            out.append(VC(c.full + tag + ':same_outcome', env.get('law_assume', []), z3.BoolVal(False), c.props))
+            return
+        if a[0] == 'raise':
+            return
+        sa, sb = a[1], b[1]
+        pa, pb = sa._d['_parameters'].plist, sb._d['_parameters'].plist
+        t = _same_params(pa, pb, star_names)
+        goals = [t if t is not None else z3.BoolVal(False)]
+        if ret:
+            goals.append(_same_return(sa, sb))
+        if sources is not None:
+            s = _same_sources(sa._d.get('sources'), sb._d.get('sources'), as_sets=(sources == 'sets'))
+            goals.append(s if s is not None else z3.BoolVal(False))
+        out.append(VC(c.full + tag, env.get('law_assume', []), z3.And(*goals), c.props))
+    runs = env['runs']
+    inp = ('return', env['infos'][0].sig)
+    if mode == 'unary' and on(L_UNARY):
+        eqsig(L_UNARY, '', runs[0], inp, sources='lists')
+        if runs[0][0] == 'return':
+            src = runs[0][1]._d.get('sources')
+            out.append(VC(L_UNARY.full + ':fresh_provenance', [], z3.BoolVal(isinstance(src, SymDict) and not sym.input_label(src)), L_UNARY.props))
+    elif mode == 'idem' and on(L_IDEM):
+        eqsig(L_IDEM, '', runs[0], inp)
+    elif mode in ('neutral_l', 'neutral_r') and on(L_NEUTRAL):
+        main = ('return', env['infos'][1 if mode == 'neutral_l' else 0].sig)
+        eqsig(L_NEUTRAL, ':' + mode, runs[0], main, star_names=False, ret=False)      # (the return annotation is the first signature's by design)
+    elif mode in ('roundtrip', 'roundtrip_sources') and on(L_ROUND):
+        eqsig(L_ROUND, ':' + mode, runs[0], inp, sources='lists')
+        if runs[0][0] == 'return' and mode == 'roundtrip_sources':
+            src = runs[0][1]._d.get('sources')
+            fresh = isinstance(src, SymDict) and not sym.input_label(src) and not any(sym.input_label(v) for _, v in src.items_)
+            out.append(VC(L_ROUND.full + ':fresh_copy', [], z3.BoolVal(bool(fresh)), L_ROUND.props))
+    elif mode == 'foldlaw' and on(L_FOLD):
+        eqsig(L_FOLD, '', runs[0], runs[1], sources='lists')
+    return out
+
+
+def make_runner(shapes_, want=None, alias_funcs=True, wf_inputs=True, mode='merge'):
     """returns (run(ctx, r), env) for merge over input signatures of the given shapes"""
     I = Interp()
     from vf import world as _world
@@ -314,7 +423,64 @@ def make_runner(shapes_, want=None, alias_funcs=True, wf_inputs=True):
         env['merger_calls'].append((l_sp, r_sp, rec))
     I.boundary_hooks['_signatures:_Merger.__iter__'] = boundary
 
+    env['mode'] = mode
+
+    def call(fn, *a, **k):
+        try:
+            return ('return', I.call(fn, list(a), list(k.items())))
+        except PyExc as e:
+            return ('raise', e)
+
+    def run_law(ctx, r):
+        env['merger_calls'] = []
+        env['r'] = r
+        merge = m.ns['merge']
+        if mode in ('neutral_l', 'neutral_r'):
+            bare = (0, 0, 1, 0, 1)
+            shs = [bare, shapes_[0]] if mode == 'neutral_l' else [shapes_[0], bare]
+        elif mode == 'idem':
+            shs = [shapes_[0]]
+        else:
+            shs = list(shapes_)
+        infos = [mk_sig(I, ctx, 's%d' % i, sh) for i, sh in enumerate(shs)]
+        for a, b in itertools.combinations(infos, 2):
+            ctx.add(a.funcs[0].t != b.funcs[0].t)
+        env['infos'] = infos
+        r.inputs = infos
+        sigs = [i.sig for i in infos]
+        env['law_assume'] = []
+        if mode == 'unary':
+            env['runs'] = [call(merge, sigs[0])]
+        elif mode == 'idem':
+            env['runs'] = [call(merge, sigs[0], sigs[0])]
+        elif mode in ('neutral_l', 'neutral_r'):
+            bare_info = infos[0 if mode == 'neutral_l' else 1]
+            # "bare": no annotations on the star parameters
+            other = infos[1 if mode == 'neutral_l' else 0]
+            env['law_assume'] = [z3.Not(p._d['_annotation'].has) for p in bare_info.params] + \
+                [a != b for a in bare_info.names for b in other.names]       # its star names clash with nothing
+            env['runs'] = [call(merge, *sigs)]
+        elif mode in ('roundtrip', 'roundtrip_sources'):
+            sp = call(m.ns['sort_params'], sigs[0], **({'sources': True} if mode == 'roundtrip_sources' else {}))
+            env['runs'] = [call(m.ns['apply_params'], sigs[0], *sp[1]) if sp[0] == 'return' else sp]
+        elif mode == 'foldlaw':
+            views = [sig_view(s) for s in sigs]
+            # 'shared names keep their role': same kind at the same positional index (C01's wording), same class
+            env['law_assume'] = [spec.roles_kept(Z3Ops, views), spec.role_consistent(Z3Ops, views)]
+            ab = call(merge, sigs[0], sigs[1])
+            nested = call(merge, ab[1], sigs[2]) if ab[0] == 'return' else ab
+            flat = call(merge, *sigs)
+            env['runs'] = [flat, nested]
+        oc = env['runs'][0]
+        r.outcome = oc[0]
+        if oc[0] == 'return':
+            r.value = oc[1]
+        else:
+            r.exc = oc[1]
+
     def run(ctx, r):
+        if mode != 'merge':
+            return run_law(ctx, r)
         env['merger_calls'] = []
         infos = [mk_sig(I, ctx, 's%d' % i, sh) for i, sh in enumerate(shapes_)]
         for a, b in itertools.combinations(infos, 2):
@@ -331,7 +497,10 @@ def make_runner(shapes_, want=None, alias_funcs=True, wf_inputs=True):
     return run, env
 
 
-vcs = merge_vcs
+def vcs(env, want):
+    if env.get('mode', 'merge') != 'merge':
+        return law_vcs(env, want)
+    return merge_vcs(env, want)
 
 
 # --------------------------------------------------------------------------- native replay and cross-check
@@ -339,8 +508,60 @@ def _short(name):
     return name.split('/', 1)[1].split('#')[0] if '/' in name else name
 
 
+def law_replay(env, vc, model):
+    from vf.concrete import Concretizer, sig_str, real_sigtools
+    from vf import rt
+    real_sigtools()
+    from sigtools import _signatures
+    conc = Concretizer(model)
+    mode = env['mode']
+    sigs = [conc.build_sig(i) for i in env['infos']]
+    sd = lambda s: (rt.params_data(s), s.return_annotation)
+
+    def srcd(s):
+        return ({k: [id(f) for f in v] for k, v in s.sources.items() if k != '+depths'}, {id(f): d for f, d in s.sources.get('+depths', {}).items()})
+    bad = []
+    try:
+        if mode == 'unary':
+            got, exp = _signatures.merge(sigs[0]), sigs[0]
+            if sd(got) != sd(exp) or srcd(got) != srcd(exp):
+                bad.append(('law:unary_identity', '%s vs %s' % (got, exp)))
+        elif mode == 'idem':
+            got = _signatures.merge(sigs[0], sigs[0])
+            if sd(got) != sd(sigs[0]):
+                bad.append(('law:idempotent', '%s vs %s' % (got, sigs[0])))
+        elif mode in ('neutral_l', 'neutral_r'):
+            got = _signatures.merge(*sigs)
+            main = sigs[1 if mode == 'neutral_l' else 0]
+            strip = lambda s: [(n if k not in (2, 4) else '*', k, d, a) for (n, k, d, a) in [(p.name, int(p.kind), p.default, p.annotation) for p in s.parameters.values()]]
+            if strip(got) != strip(main):
+                bad.append(('law:bare_stars_neutral', '%s vs %s' % (got, main)))
+        elif mode in ('roundtrip', 'roundtrip_sources'):
+            sp = _signatures.sort_params(sigs[0], sources=True) if mode == 'roundtrip_sources' else _signatures.sort_params(sigs[0])
+            got = _signatures.apply_params(sigs[0], *sp)
+            if sd(got) != sd(sigs[0]) or srcd(got) != srcd(sigs[0]):
+                bad.append(('law:sort_apply_round_trip', '%s vs %s' % (got, sigs[0])))
+            if mode == 'roundtrip_sources' and (got.sources is sigs[0].sources or any(v is sigs[0].sources.get(k) for k, v in got.sources.items())):
+                bad.append(('law:sort_apply_round_trip', 'provenance containers shared with the input'))
+        elif mode == 'foldlaw':
+            oc1 = rt.run_real(_signatures.merge, *sigs)
+            oc2 = rt.run_real(lambda: _signatures.merge(_signatures.merge(sigs[0], sigs[1]), sigs[2]))
+            if oc1[0] != oc2[0]:
+                bad.append(('law:fold', 'merge(a, b, c): %s, merge(merge(a, b), c): %s' % (oc1, oc2)))
+            elif oc1[0] == 'return' and (sd(oc1[1]) != sd(oc2[1]) or srcd(oc1[1]) != srcd(oc2[1])):
+                bad.append(('law:fold', '%s with %s vs %s with %s' % (oc1[1], srcd(oc1[1]), oc2[1], srcd(oc2[1]))))
+    except Exception as e:
+        bad.append(('law', 'raised %r' % (e,)))
+    key = ':'.join(vc.name.split('/', 1)[1].split(':')[:2])
+    hit = [b for b in bad if b[0] == key]
+    return dict(status='reproduced' if hit else ('other-violation' if bad else 'not-reproduced'), op='merge-law:' + mode, inputs=[sig_str(s) for s in sigs],
+                violated=[list(b) for b in (hit or bad)])
+
+
 def replay(env, vc, model):
     """concretise the counterexample and run the REAL merge on it; evaluate the concrete contracts"""
+    if env.get('mode', 'merge') != 'merge':
+        return law_replay(env, vc, model)
     from vf.concrete import Concretizer, sig_str, real_sigtools
     from vf import rt
     real_sigtools()
@@ -416,6 +637,8 @@ def real_sig_data(sig, fkey):
 def crosscheck(env, r):
     """differential check of the generator against CPython on this path: one concrete witness of the path
     condition is run through the REAL function and the outcomes are compared"""
+    if env.get('mode', 'merge') != 'merge':
+        return None
     from vf.concrete import Concretizer, real_sigtools
     from vf import rt
     real_sigtools()
